@@ -56,6 +56,9 @@ func (e *Env) sub(vars map[string]Val) *Env {
 
 func (e *Env) evalBool(ex *SExpr) string {
 	v := e.eval(ex)
+	if v.Typ == nil {
+		return e.x.D.fresh("noevent", "Bool")
+	}
 	if len(v.L) != 1 || !isBool(v.Typ) {
 		specFail("expression %s is not boolean (type %v)", ex, v.Typ)
 	}
@@ -170,6 +173,9 @@ func (e *Env) eval(ex *SExpr) Val {
 			}
 			return Val{Typ: a.Typ, L: []string{"(- " + a.L[0] + ")"}}
 		case "*":
+			if a.Typ == nil {
+				return a
+			}
 			loc := e.x.toLoc(a)
 			return e.loadLocSpec(loc)
 		}
@@ -258,6 +264,9 @@ func (e *Env) loadLocSpec(l *Loc) Val {
 func (e *Env) evalSel(ex *SExpr) Val {
 	// package-qualified constant, e.g. limit.ProbeDisabled
 	a := e.eval(ex.Args[0])
+	if a.Typ == nil {
+		return a
+	}
 	name := ex.Tok
 	t := types.Unalias(a.Typ)
 	// ghost field?
@@ -643,6 +652,9 @@ func (e *Env) evalCall(ex *SExpr) Val {
 			return boolVal("(select Alloc0 " + a.L[0] + ")")
 		case "dyntype":
 			a := e.eval(args[0])
+			if a.Typ == nil {
+				return a
+			}
 			t, err := e.x.P.lookupType(e.strArg(args[1]))
 			if err != nil {
 				specFail("%v", err)
@@ -650,6 +662,9 @@ func (e *Env) evalCall(ex *SExpr) Val {
 			return boolVal(sEq(a.L[0], fmt.Sprint(e.x.P.typeID(t))))
 		case "ref":
 			a := e.eval(args[0])
+			if a.Typ == nil {
+				return a
+			}
 			if isIface(a.Typ) {
 				return Val{Typ: types.Typ[types.UnsafePointer], L: []string{a.L[1]}}
 			}
@@ -657,6 +672,9 @@ func (e *Env) evalCall(ex *SExpr) Val {
 		case "as":
 			// as(x, "*pkg.T"): view the payload of an interface value as a pointer of that type
 			a := e.eval(args[0])
+			if a.Typ == nil {
+				return a
+			}
 			t, err := e.x.P.lookupType(e.strArg(args[1]))
 			if err != nil {
 				specFail("%v", err)
@@ -668,6 +686,9 @@ func (e *Env) evalCall(ex *SExpr) Val {
 		case "isfunc":
 			// isfunc(f, "pkg.Name"): the function value f is (a closure of) that function
 			a := e.eval(args[0])
+			if a.Typ == nil {
+				return a
+			}
 			f, ok := e.x.P.fns[e.strArg(args[1])]
 			if !ok {
 				specFail("unknown function %s", e.strArg(args[1]))
@@ -676,6 +697,9 @@ func (e *Env) evalCall(ex *SExpr) Val {
 		case "captured":
 			// captured(f, "pkg.Name", i): i-th binding of closure value f
 			a := e.eval(args[0])
+			if a.Typ == nil {
+				return a
+			}
 			f, ok := e.x.P.fns[e.strArg(args[1])]
 			if !ok {
 				specFail("unknown function %s", e.strArg(args[1]))
@@ -766,7 +790,28 @@ func (e *Env) evalCall(ex *SExpr) Val {
 			default:
 				return Val{Typ: types.Typ[types.Int], L: []string{fmt.Sprint(idx[k])}}
 			}
-		case "calledUnder":
+		case "chancap":
+			a := e.eval(args[0])
+			if a.Typ == nil {
+				return a
+			}
+			return intVal("(select " + e.heapTerm("ghost:chan.cap", "Int") + " " + a.L[0] + ")")
+		case "lvalue":
+			a := e.eval(args[0])
+			return Val{Typ: types.Typ[types.UnsafePointer], L: []string{"(select " + e.heapTerm("container/list.Element.Value#v", "Int") + " " + a.L[0] + ")"}}
+		case "lmember", "lstamp", "llen":
+			// ghost state of a container/list.List (see models.go)
+			a := e.eval(args[0])
+			switch fn.Tok {
+			case "llen":
+				return intVal("(select " + e.heapTerm("ghost:list.len", "Int") + " " + a.L[0] + ")")
+			case "lstamp":
+				return intVal("(select " + e.heapTerm("ghost:list.stamp", "Int") + " " + a.L[0] + ")")
+			default:
+				b := e.eval(args[1])
+				return boolVal("(select (select " + e.heapTerm("ghost:list.mem", "(Array Int Bool)") + " " + a.L[0] + ") " + b.L[0] + ")")
+			}
+		case "calledUnder", "calledUnderRead":
 			// calledUnder("event", k, x.mu): the k-th such call happened with the lock held
 			name := e.strArg(args[0])
 			k := e.intArg(args[1])
@@ -776,7 +821,7 @@ func (e *Env) evalCall(ex *SExpr) Val {
 				return boolVal(e.x.D.fresh("noevent", "Bool"))
 			}
 			for _, h := range e.events[idx[k]].Held {
-				if h == lk {
+				if h == lk || (fn.Tok == "calledUnderRead" && h == lk+"#r") {
 					return boolVal("true")
 				}
 			}
@@ -791,7 +836,7 @@ func (e *Env) evalCall(ex *SExpr) Val {
 				}
 			}
 			return Val{Typ: types.Typ[types.Int], L: []string{fmt.Sprint(n)}}
-		case "callresIter", "callargIter":
+		case "callresIter", "callargIter", "callrecvIter":
 			name := e.strArg(args[0])
 			k := e.intArg(args[1])
 			var idx []int
@@ -804,6 +849,12 @@ func (e *Env) evalCall(ex *SExpr) Val {
 				return Val{Typ: nil, L: []string{"missing"}}
 			}
 			ev := e.events[idx[k]]
+			if fn.Tok == "callrecvIter" {
+				if ev.Recv != nil {
+					return *ev.Recv
+				}
+				return Val{Typ: nil, L: []string{"missing"}}
+			}
 			i := e.intArg(args[2])
 			if fn.Tok == "callresIter" {
 				if i < len(ev.Res) {
